@@ -306,6 +306,17 @@ func TestC06_Reuse(t *testing.T) {
 		}
 		c.Case()
 		loose := enumeratesMembers(e)
+		if loose && updated {
+			// whether an order-sensitive use of an enumerated array makes the
+			// outcome vary is decided by the model on the documents as drawn;
+			// it is not re-decided after an update, so such expressions see none
+			for i := range ops {
+				if ops[i].Op == "update" {
+					ops[i] = c06Op{Op: "search", Doc: ops[i].Doc}
+				}
+			}
+			updated = false
+		}
 		multi := false
 		for _, v := range vals {
 			r, _ := model.Eval(e, v)
